@@ -1,7 +1,15 @@
-"""U-RESNODE (C06, leaned on by C04 / C05): the error collection of the resolver's NODE impls of `Resolvable`
-(src/alpha/resolver.rs) - continues U-COLLECT, whose trait-level contract and generic combinators are imported (contracts loaded
-from contracts/u_collect.vc and contracts/u_acc.vc, the combinators re-verified here with one addition: a trait-level
-precondition `pre`).  See spec/u_resnode_spec.rs."""
+"""U-RESNODE (C06, leaned on by C04 / C05): the error collection of ALL node impls of `Resolvable` (src/alpha/resolver.rs): Identifier,
+Member, Parameter, FunctionBody, Comparison, Declaration (verified directly), Statement, Else, ValueType, Expression, Reference,
+ReferenceStep, MemberExpression (recursive through the generic combinators: verified by the mirror-trait induction scheme of
+prelude/resnode_rec.rs, because Verus rejects recursion through generic trait impls), and `pub fn resolve`.
+Continues U-COLLECT, whose trait-level contract and generic combinators are imported (contracts loaded from contracts/u_collect.vc
+and contracts/u_acc.vc; the combinators re-verified here with one addition: a trait-level precondition `pre`, and a second time
+under the mirror names).  Each node DEFINES errs / poisoned / pre (and resolves_to, except in the Expression cluster where the
+resolved FORM is left open) from its FIELDS: spec/u_resnode_spec.rs.
+Assumed: the induction hypotheses `RecResolvable for Statement / ValueType / Expression` (prelude/resnode_rec.rs); the operator /
+cast drivers and resolve_compared_type as deterministic functions of their arguments (unit U-RES verifies what they are, on its own
+opaque Expression - its contracts cannot be imported literally); Typed::value_type / Expression::location / builtin::resolve as
+functions; EnumSet model; derived Clone = identity."""
 import os
 from vlib import rules, vc
 from units.u_align import emit_types
@@ -121,6 +129,24 @@ MIRROR_DEFS = {
         'assert(self.rec_poisoned() == (self.0.rec_poisoned() || self.1.rec_poisoned()));',
         'assert forall|x: Self::Item| self.rec_resolves_to(x) == (self.0.rec_resolves_to(x.0) && self.1.rec_resolves_to(x.1)) by { }',
     ],
+    'Option<T>': [
+        'assert(self.rec_pre() == (match self { Some(v) => v.rec_pre(), None => true }));',
+        'assert(self.rec_errs() == (match self { Some(v) => v.rec_errs(), None => Seq::empty() }));',
+        'assert(self.rec_poisoned() == (match self { Some(v) => v.rec_poisoned(), None => false }));',
+        'assert forall|x: Self::Item| self.rec_resolves_to(x) == (match self { Some(v) => x is Some && v.rec_resolves_to(x->Some_0), None => x is None }) by { }',
+    ],
+    'Box<T>': [
+        'assert(self.rec_pre() == (*self).rec_pre());',
+        'assert(self.rec_errs() == (*self).rec_errs());',
+        'assert(self.rec_poisoned() == (*self).rec_poisoned());',
+        'assert forall|x: Self::Item| self.rec_resolves_to(x) == (*self).rec_resolves_to(*x) by { }',
+    ],
+    'Poisonable<T>': [
+        'assert(self.rec_pre() == (match self { Ok(v) => v.rec_pre(), Err(_) => true }));',
+        'assert(self.rec_errs() == (match self { Ok(v) => v.rec_errs(), Err(p) => poison_errs(p) }));',
+        'assert(self.rec_poisoned() == (match self { Ok(v) => v.rec_poisoned(), Err(p) => p is Poisoned }));',
+        'assert forall|x: Self::Item| self.rec_resolves_to(x) == (match self { Ok(v) => v.rec_resolves_to(x), Err(p) => false }) by { }',
+    ],
     'Vec<T>': [
         'assert(self.rec_pre() == rec_list_pre(self@));',
         'assert(self.rec_errs() == rec_list_errs(self@));',
@@ -128,10 +154,16 @@ MIRROR_DEFS = {
         'assert forall|x: Self::Item| self.rec_resolves_to(x) == rec_list_resolves_to(self@, x@) by { }',
     ],
 }
+SPELLED_OUT = ['ReferenceStep', 'Reference', 'MemberExpression', 'Expression']
 TAG = ' [mirror]'
 MIRRORED = ['Vec<T>', '(T1, T2)', '(T1, T2, T3)', 'Option<T>', 'Box<T>', 'Poisonable<T>']
 RECURSIVE = [
     ('impl Resolvable for Statement', ('stmt_pre(self)', 'stmt_errs(self)', 'stmt_poisoned(self)', 'stmt_resolves_to(self, x)')),
+    ('impl Resolvable for ValueType', ('vt_pre(self)', 'Seq::empty()', 'false', 'vt_resolves_to(self, x)')),
+    ('impl Resolvable for ReferenceStep', ('step_pre(self)', 'step_errs(self)', 'step_poisoned(self)', 'true')),
+    ('impl Resolvable for Reference', ('ref_pre(self)', 'ref_errs(self)', 'ref_poisoned(self)', 'true')),
+    ('impl Resolvable for MemberExpression', ('mexpr_pre(self)', 'mexpr_errs(self)', 'mexpr_poisoned(self)', 'true')),
+    ('impl Resolvable for Expression', ('expr_pre(self)', 'expr_errs(self)', 'expr_poisoned(self)', 'true')),
     ('impl Resolvable for Else', ('stmt_pre(*self.branch)', 'stmt_errs(*self.branch)', 'stmt_poisoned(*self.branch)', 'stmt_resolves_to(*self.branch, *x)')),
 ]
 
@@ -162,9 +194,10 @@ def build(u):
     u.load_contracts('contracts/u_resnode.vc')
     import_collect_contracts(u)
     emit_types(u, ['is_void'])
-    u.opaque += ['Location', 'lexer::Error', 'EnumSet<T>', 'resolved::Expression', 'resolved::Reference',
-                 'impl Resolvable for Expression / Statement / ValueType (stand-ins: assumed to meet the trait contract)',
-                 'resolve_compared_type (deterministic function of its arguments; U-RES)']
+    u.opaque += ['Location', 'lexer::Error', 'EnumSet<T>', 'builtin::Fd',
+                 'RecResolvable for Statement / ValueType / Expression (induction hypotheses of the mirror-trait scheme, prelude/resnode_rec.rs)',
+                 'resolve_compared_type, resolve_binary_op_type, resolve_unary_op_type, analyze_bit_cast_and_get_coerced_type, '
+                 'analyze_primitive_cast_and_get_value_type, builtin::resolve (deterministic functions of their arguments; U-RES)']
     u.emit(C, 'enum DeclarationFlag')
     u.include('prelude/resnode_types.rs')
     for it in ['enum BinaryOp', 'enum UnaryOp', 'enum ComparisonOp', 'enum Builtin']:
@@ -174,13 +207,13 @@ def build(u):
         u.emit(C, it, derive_drop=['Clone'])
     u.emit(E, 'struct Errors')
     # ---- resolved.rs: the output types (Expression / Reference opaque: their impls are not in the unit)
-    u.raw('pub mod resolved {\nuse vstd::prelude::*;\nuse vstd::std_specs::cmp::{PartialEqSpec, PartialEqSpecImpl};\nuse super::*;\n'
-          '#[verifier::external_body] pub struct Expression { _p: u8 }\n#[verifier::external_body] pub struct Reference { _p: u8 }')
+    u.raw('pub mod resolved {\nuse vstd::prelude::*;\nuse vstd::std_specs::cmp::{PartialEqSpec, PartialEqSpecImpl};\nuse super::*;')
     u.emit(RS, 'type ValueType')
     u.emit(RS, 'struct Identifier', derive_drop=['Clone'])
     u.emit(RS, 'impl value_type::Identifier for Identifier')
     u.emit(RS, 'impl PartialEq for Identifier')
-    for it in ['struct Member', 'struct Parameter', 'struct Block', 'enum Statement', 'struct Comparison', 'struct FunctionBody', 'enum Declaration']:
+    for it in ['struct Member', 'struct Parameter', 'struct Block', 'enum Statement', 'struct Comparison', 'struct FunctionBody', 'enum Declaration',
+               'struct MemberExpression', 'enum Expression', 'struct Reference', 'enum ReferenceStep', 'enum GeneratorBuiltin']:
         u.emit(RS, it, derive_drop=['Clone'])
     u.raw('} // mod resolved')
     u.include('spec/u_collect_spec.rs', kind='spec')
@@ -205,5 +238,12 @@ def build(u):
                    pre=(lambda t, pre=pre, ty=ty: mirror(inject('\topen spec fn pre(self) -> bool { %s }' % COMBINATOR_PRE[ty])(pre(t)))))
     u.include('prelude/resnode_rec.rs')
     for header, d in RECURSIVE:
+        c = u.contracts.get(header + ' :: fn resolve')
+        if c is not None and header.split(' for ')[1] in SPELLED_OUT:
+            c.body_prefix = ['\t\tproof {',
+                             '\t\t\tassert(Resolvable::pre(self) == (%s));' % d[0],
+                             '\t\t\tassert(Resolvable::errs(self) == (%s));' % d[1],
+                             '\t\t\tassert(Resolvable::poisoned(self) == (%s));' % d[2],
+                             '\t\t}'] + list(c.body_prefix)
         u.emit(R, header, rules=[r_rec_calls, r_question(), r_into_from('Errors')], pre=defs(*d))
     u.emit(R, 'fn resolve')
